@@ -72,11 +72,7 @@ static void build_reset_pair(Case *c, Obj *a, Obj *b)
    g_fill = 0x5A; *b = obj_new(c);
    for (i = 0; i < c->cut; i++)
       if (c->ops[i].type == OP_SET && g_ra[i].ret == OPUS_OK) { Rec t; run_op(c, b, &c->ops[i], &t); }
-   if (c->kind == K_ENC) {
-      opus_int32 fc = 0;
-      if (opus_encoder_ctl((OpusEncoder *)a->p, OPUS_GET_FORCE_CHANNELS(&fc)) == OPUS_OK)
-         opus_encoder_ctl((OpusEncoder *)b->p, OPUS_SET_FORCE_CHANNELS(fc));
-   }
+   sync_force_channels(c, a, b);
    g_fill = -1;
 }
 static int diag(int kind, uint64_t seed, int index)
